@@ -57,7 +57,13 @@ def build_history(rng, spool, tier):
     pool, bits = uid_pool(rng)
     big = rng.random() < 0.12
     if big:
-        pool += ["b%d.%d@verif" % (rng.randint(0, 999999), i) for i in range(rng.choice([40, 150, 400]))]
+        # (again no two with the same 32-bit key: over tens of thousands of histories that does happen by chance)
+        keys = {xxh.xxh32(u) for u in pool}
+        for i in range(rng.choice([40, 150, 400])):
+            u = "b%d.%d@verif" % (rng.randint(0, 999999), i)
+            if xxh.xxh32(u) not in keys:
+                keys.add(xxh.xxh32(u))
+                pool.append(u)
     ops = []          # what was asked, in connection order
     t = now
     ver = 0
